@@ -241,6 +241,12 @@ theorem localEvaluate_total (cfg : LocalCfg) (s : Local) (score : F) :
         | feas _ _ => exact Or.inr ⟨trivial, hle, by intro a b c; simp⟩
         | part _ _ => exact Or.inr ⟨trivial, hle, by intro a b c; simp⟩
         | spiral _ => exact Or.inr ⟨trivial, hle, by intro a b c; simp⟩
+        | sorted _ => exact Or.inr ⟨trivial, hle, by intro a b c; simp⟩
+        | int _ => exact Or.inr ⟨trivial, hle, by intro a b c; simp⟩
+        | npunif _ => exact Or.inr ⟨trivial, hle, by intro a b c; simp⟩
+        | choice _ => exact Or.inr ⟨trivial, hle, by intro a b c; simp⟩
+        | mutant _ => exact Or.inr ⟨trivial, hle, by intro a b c; simp⟩
+        | parents _ => exact Or.inr ⟨trivial, hle, by intro a b c; simp⟩
     · rw [if_neg hle]
       exact Or.inl ⟨_, rfl⟩
 
